@@ -213,6 +213,11 @@ def gen_world(rng, tier="quick"):
             files.append({"path": "build/out.py", "content": "x = 1\n"})
         untracked = rng.subset([f["path"] for f in files if not f["path"].startswith("LICENSES/")], 0.1)
         world["git"] = {"untracked": sorted(untracked), "commit": True}
+        if rng.chance(0.35):
+            # a submodule (as far as reuse can tell: .gitmodules names the path) whose files carry no information
+            files.append({"path": ".gitmodules", "content": '[submodule "lib"]\n\tpath = vendor/lib\n\turl = https://example.org/lib.git\n'})
+            files.append({"path": "vendor/lib/code.c", "content": "int unlicensed;\n"})
+            files.append({"path": "vendor/lib/sub/more.py", "content": "x = 1\n"})
     if rng.chance(0.1):
         world["symlinks"] = [{"path": "link.py", "target": files[0]["path"]}]
     real = {""}
@@ -232,11 +237,11 @@ def _root_spellings(cwd, dirs, git, rn="p"):
 def _root_spellings0(cwd, dirs, git):
     real_dirs = [d for d in dirs if d]
     if cwd == ".":
-        opts = [None, ".", "./", "$ROOT", "$ROOT/", "../\0"] + [f"{d}/" + "/".join([".."] * (d.count("/") + 1)) for d in real_dirs[:2]]
+        opts = [None, ".", "./", "$ROOT", "$ROOT/", "../\0"] + [f"../s/link{i}/" + "/".join([".."] * (d.count("/") + 1)) for i, d in enumerate(real_dirs[:2])] + [f"{d}/" + "/".join([".."] * (d.count("/") + 1)) for d in real_dirs[:2]]
     elif cwd == "..":
         opts = ["\0", "./\0", "\0/", "$ROOT"] + [f"\0/{d}/" + "/".join([".."] * (d.count("/") + 1)) for d in real_dirs[:1]]
     elif cwd == "../s":
-        opts = ["../\0", "$ROOT", "../s/../\0"]
+        opts = ["../\0", "$ROOT", "../s/../\0"] + [f"link{i}/" + "/".join([".."] * (d.count("/") + 1)) for i, d in enumerate(real_dirs[:2])]
     else:
         up = "/".join([".."] * (cwd.count("/") + 1))
         opts = [up, up + "/", "$ROOT", f"{up}/{cwd}/{up}"] + ([None] if git else [])
@@ -254,6 +259,8 @@ def gen_case(seed, tier, index=0):
     else:
         world, dirs = gen_world(rng, tier)
     git = bool(world.get("git"))
+    # symlinks outside the project that point at its directories: 'link/..' is one more way to spell the root
+    world["sentinel_links"] = [{"path": f"link{i}", "target": d} for i, d in enumerate([d for d in dirs if d][:2])]
     # the name of the root directory itself is part of the environment, not of the project's contents
     rn = rng.wpick([(12, "p"), (2, "subprojects"), (1, "LICENSES"), (1, ".reuse"), (1, "a b"), (1, "x.license"), (1, "LICENSE"),
                     (2, "p[1]"), (1, "st*r"), (1, "q?")])
@@ -312,10 +319,18 @@ def gen_case(seed, tier, index=0):
 
 
 # ---- normalisation ------------------------------------------------------------------------
-def _canon_path(p, cwd, world_paths, rn="p"):
+def _canon_path(p, cwd, world_paths, rn="p", spelling=None):
     """The file a reported path denotes, as a root-relative posix path."""
     if not isinstance(p, str):
         return p
+    if spelling and not spelling.startswith("$ROOT"):
+        # reported paths are <root as spelled>/<relative path>; the spelling may go through a symlink, so it is
+        # removed as a prefix, never resolved textually
+        sp = str(posixpath.join(*[x for x in spelling.split("/") if x not in ("", ".")] or ["."])) if not spelling.startswith("/") else spelling
+        if p == sp:
+            return "."
+        if sp != "." and p.startswith(sp + "/") and p[len(sp) + 1:] in world_paths:
+            return p[len(sp) + 1:]
     p = p.replace("$B/", "/B/")
     cwd_abs = posixpath.normpath(posixpath.join("/B/" + rn, cwd))
     a = posixpath.normpath(posixpath.join(cwd_abs, p))
@@ -328,14 +343,14 @@ def _canon_path(p, cwd, world_paths, rn="p"):
     return rel
 
 
-def normalise(cmd, rec, cwd, world_paths, rn="p"):
+def normalise(cmd, rec, cwd, world_paths, rn="p", spelling=None):
     if rec.get("exc"):
         return {"exception": rec["exc"]["type"]}
     if rec.get("timeout"):
         return {"timeout": True}
     out = {"exit": rec.get("exit")}
     so = rec.get("stdout", "")
-    cp = lambda p: _canon_path(p, cwd, world_paths, rn)  # noqa: E731
+    cp = lambda p: _canon_path(p, cwd, world_paths, rn, spelling)  # noqa: E731
     if cmd[:2] == ["lint", "--json"]:
         try:
             d = json.loads(so)
@@ -414,14 +429,14 @@ def oracle(case, results):
     for si in range(nsteps):
         cmd0 = _cmd_of(base_var["steps"][si]["argv"])
         rn = case["world"].get("root_name", "p")
-        n0 = normalise(cmd0, base_res["records"][si], base_var["steps"][si].get("cwd", "."), world_paths, rn)
+        n0 = normalise(cmd0, base_res["records"][si], base_var["steps"][si].get("cwd", "."), world_paths, rn, _spelling(base_var["steps"][si]["argv"]))
         for vi in range(1, len(case["variants"])):
             var = case["variants"][vi]
             st = var["steps"][si]
             cmd = _cmd_of(st["argv"])
             if cmd != cmd0:
                 continue
-            n1 = normalise(cmd, results[vi]["records"][si], st.get("cwd", "."), world_paths, rn)
+            n1 = normalise(cmd, results[vi]["records"][si], st.get("cwd", "."), world_paths, rn, _spelling(st["argv"]))
             d = first_difference(n0, n1)
             if d:
                 field = d.split(".")[0]
@@ -444,6 +459,10 @@ def _dig(n, path):
         else:
             break
     return cur
+
+
+def _spelling(argv):
+    return argv[argv.index("--root") + 1] if "--root" in argv else None
 
 
 def _cmd_of(argv):
